@@ -272,6 +272,106 @@ func init() {
 				detail += fmt.Sprintf(" %d-sends-failed-though-every-message-was-acknowledged", errs)
 			}
 			return fmt.Sprintf("bad=%d overlap=%d errs=%d %s", bad, atomic.LoadInt32(&cn.overlap), errs, detail)
+		case "helpermix":
+			// the Send* helpers and SendRaw from several goroutines at once, without acks; payload sizes around the
+			// buffer sizes a helper might treat specially (2 KiB, 4 KiB, 64 KiB)
+			f := &concFactory{w: w}
+			c := client.New(client.ConnectionOptions{Factory: f, ConnectionTimeout: 2 * time.Second})
+			if err := c.Connect(); err != nil {
+				return "bad=1 connect"
+			}
+			const G, K = 4, 10
+			sizes := []int{40, 2047, 2049, 4097, 9000, 65535, 65536, 70000, 140000}
+			type exp struct {
+				kind string
+				size int
+			}
+			want := make([]map[string]exp, G)
+			var sg sync.WaitGroup
+			for g := 0; g < G; g++ {
+				want[g] = map[string]exp{}
+				sg.Add(1)
+				go func(g int) {
+					defer sg.Done()
+					r := &Rng{s: seed + uint64(g)*104729}
+					for j := 0; j < K; j++ {
+						sz := sizes[r.Intn(len(sizes))]
+						letters := bytes.Repeat([]byte{byte('a' + g)}, sz)
+						kind := []string{"msg", "fwd", "pfb", "pfb", "raw"}[r.Intn(5)]
+						tag := fmt.Sprintf("g%d.%s%d", g, kind, j)
+						var err error
+						switch kind {
+						case "msg":
+							err = c.SendMessage(tag, map[string]interface{}{"p": string(letters)})
+						case "fwd":
+							err = c.SendForward(tag, protocol.EntryList{{Timestamp: protocol.EventTimeNow(), Record: map[string]interface{}{"p": string(letters)}}})
+						case "pfb":
+							err = c.SendPackedFromBytes(tag, letters)
+						default:
+							b, _ := (&protocol.Message{Tag: tag, Timestamp: 1, Record: map[string]interface{}{"p": string(letters)}}).MarshalMsg(nil)
+							err = c.SendRaw(b)
+						}
+						if err == nil {
+							want[g][tag] = exp{kind, sz}
+						}
+					}
+				}(g)
+			}
+			done := make(chan struct{})
+			go func() { sg.Wait(); close(done) }()
+			select {
+			case <-done:
+			case <-time.After(60 * time.Second):
+				return "bad=1 deadlock-or-hang"
+			}
+			cn := f.conns[0]
+			seen := map[string]int{}
+			bad, off, detail := 0, 0, ""
+			allSame := func(b []byte, ch byte, n int) bool { return len(b) == n && bytes.Count(b, []byte{ch}) == n }
+			for off < len(cn.wire) {
+				t, n, err := mpParse(cn.wire[off:], 0)
+				if err != nil || t.K != KArr || len(t.A) < 2 || t.A[0].K != KStr || len(t.A[0].S) < 4 {
+					bad++
+					detail = fmt.Sprintf("wire-not-a-sequence-of-messages@%d", off)
+					break
+				}
+				tag := string(t.A[0].S)
+				g := int(tag[1] - '0')
+				if g < 0 || g >= G {
+					bad++
+					detail = "unknown-tag " + tag
+					break
+				}
+				e, ok := want[g][tag]
+				seen[tag]++
+				if ok {
+					ch := byte('a' + g)
+					good := false
+					switch e.kind {
+					case "msg", "raw":
+						good = len(t.A) >= 3 && t.A[2].K == KMap && len(t.A[2].A) == 2 && allSame(t.A[2].A[1].S, ch, e.size)
+					case "fwd":
+						good = t.A[1].K == KArr && len(t.A[1].A) == 1 && len(t.A[1].A[0].A) == 2 && t.A[1].A[0].A[1].K == KMap &&
+							len(t.A[1].A[0].A[1].A) == 2 && allSame(t.A[1].A[0].A[1].A[1].S, ch, e.size)
+					case "pfb":
+						good = t.A[1].K == KBin && allSame(t.A[1].S, ch, e.size)
+					}
+					if !good {
+						bad++
+						detail = "message-content-mixed " + tag
+					}
+				}
+				off += n
+			}
+			for g := range want {
+				for tag := range want[g] {
+					if seen[tag] != 1 {
+						bad++
+						detail = fmt.Sprintf("successful-send-%s-appears-%d-times", tag, seen[tag])
+					}
+				}
+			}
+			return fmt.Sprintf("bad=%d overlap=%d %s", bad, atomic.LoadInt32(&cn.overlap), detail)
 		case "hsrace":
 			// one goroutine completes honest handshakes (Reconnect + Handshake) while others poll TransportPhase
 			key := []byte("k")
@@ -381,7 +481,7 @@ func init() {
 		return "bad-scenario"
 	}
 	suites["conc"] = func(o *Out, r *Rng, n int, tier string) {
-		sc := []string{"sendmix", "sendack", "hsmix", "lifecycle", "hsrace"}
+		sc := []string{"sendmix", "sendack", "hsmix", "lifecycle", "hsrace", "helpermix"}
 		for i := 0; i < n; i++ {
 			o.emit("C08", "CONC", sc[i%len(sc)], itoa(int64(r.Intn(1000000))))
 		}
